@@ -267,8 +267,11 @@ def deductSessionSpend {π : Type} (ss : Session π) (gas : Bool) (amt : Nat) (n
   match ss.limit with
   | none => none
   | some L =>
-    let ss1 := if ss.periodOver now then { ss with used := 0, reset := now } else ss
-    if gas && decide (ss1.used + amt ≤ L) then some { ss1 with used := ss1.used + amt } else none
+    -- an elapsed period first resets SpendUsed / SpendReset (in memory)
+    if gas && decide ((if ss.periodOver now then 0 else ss.used) + amt ≤ L) then
+      some { ss with used := (if ss.periodOver now then 0 else ss.used) + amt,
+                     reset := if ss.periodOver now then now else ss.reset }
+    else none
 
 /-- `bank.AddCoins` of the gas denom: `ensureAccount`, then add. -/
 def credit {π : Type} (s : State π) (a : Addr) (amt : Nat) : State π :=
